@@ -45,6 +45,7 @@ __CPROVER_assigns(in_buffer->pos_, self->port_data, self->port_bytes, self->port
 #ifdef VERIF_CBMC
 #include "core_helpers.h"
 #include "core_slice.c"
+static inline bool EncoderBuffer_Encode_u8_val(struct EncoderBuffer *b, uint8_t v) { return EncoderBuffer_Encode_u8(b, &v); } /* Encode<uint8_t>(const T&) called with a temporary */
 #include "attrdec_slice.c"
 int SIAD_GetNumValueComponents(struct SIAD *self) { return self->num_value_components; }
 void SIAD_PreparePortableAttribute(struct SIAD *self, int num_entries, int num_components) {
@@ -57,4 +58,24 @@ int32_t *SIAD_GetPortableAttributeData(struct SIAD *self) { return self->port_en
 size_t SIAD_portable_data_size(struct SIAD *self) { return self->port_bytes; }
 void h_enf_SIAD_DecodeIntegerValues(void) { GHOSTS(); struct SIAD *s; const struct vec_pid *p; struct DecoderBuffer *b; SIAD_DecodeIntegerValues(s, p, b); HARNESS_END(); }
 void h_enf_ConvertSymbolsToSignedInts_inplace(void) { GHOSTS(); const uint32_t *in; int n; int32_t *out; ConvertSymbolsToSignedInts_inplace(in, n, out); HARNESS_END(); }
+/* rawvalues.rt (C04/C05; BOUNDED stand-in: at most 3 values, every value): the raw attribute path stores `0`, the byte width and then every symbol
+ * with that many low-order bytes; the width is 1 + msb(OR of all symbols)/8 (frozen layout: the smallest width that holds every symbol, 1..4), so a
+ * reader that takes that many bytes per value (little endian, zero extended -- SequentialIntegerAttributeDecoder::DecodeIntegerValues) gets every
+ * symbol back exactly. */
+void h_rawvalues_rt(void) {
+  GHOSTS();
+  int n; __CPROVER_assume(n >= 1 && n <= 3);
+  int32_t vals[3]; char store[32]; for (int i = 0; i < 32; ++i) store[i] = 0x55;
+  struct EncoderBuffer eb; eb.buffer_.data = store; eb.buffer_.size = 0; eb.buffer_.cap = 32; eb.bit_encoder_ = 0; eb.bit_encoder_reserved_bytes_ = 0; eb.encode_bit_sequence_size_ = false;
+  bool ok = SIAE_EncodeRawValues(vals, n, &eb);
+  uint32_t all = 0; for (int i = 0; i < 3; ++i) if (i < n) all |= (uint32_t)vals[i];
+  int want = all >= (1u << 24) ? 4 : all >= (1u << 16) ? 3 : all >= (1u << 8) ? 2 : 1;
+  __CPROVER_assert(ok && (uint8_t)store[0] == 0, "rawvalues.rt.uncompressed_marker");
+  __CPROVER_assert((uint8_t)store[1] == want, "rawvalues.rt.byte_width_is_smallest_that_holds_every_symbol");
+  __CPROVER_assert(eb.buffer_.size == 2 + (size_t)want * (size_t)n, "rawvalues.rt.stream_length");
+  int k; __CPROVER_assume(k >= 0 && k < n);
+  uint32_t back = 0; for (int b = 0; b < 4; ++b) if (b < want) back |= (uint32_t)(uint8_t)store[2 + want * k + b] << (8 * b);
+  __CPROVER_assert(back == (uint32_t)vals[k], "rawvalues.rt.symbol_read_back_exactly");
+  HARNESS_END();
+}
 #endif
